@@ -157,7 +157,9 @@ def reqJudge (f : List String) (out : String) : String :=
   | some c =>
     match parseObservedReq c out with
     | none => "bad:unparsable:" ++ out
-    | some o => verdictReq specHop (mkRepl c.r.host c.r.remoteAddr) c.u c.r o
+    | some o =>
+      let v := verdictReq specHop (mkRepl c.r.host c.r.remoteAddr) c.u c.r o
+      if v != "ok" then v else verdictRawPath c.u c.r o
 
 /-
   c04.retry  (the 18 fields of c04.req) target2Parts target2String cred2
